@@ -17,7 +17,9 @@ import (
 	"encoding/json"
 	"fmt"
 	"os"
+	"sync"
 	"testing"
+	"time"
 
 	"github.com/bytedance/gopkg/lang/mcache"
 )
@@ -158,7 +160,22 @@ func vlbRun(bh *vlbBehaviour) (outs []vlbOut) {
 				}
 				results = keep
 			}
+			if st.B != 1 && (st.Op == "Malloc" || st.Op == "WriteBinary" || st.Op == "MallocAck" || st.Op == "Flush") {
+				order = false // content order is judged for the single-buffer behaviours (appends: the ByteQueue replays)
+			}
 			switch st.Op {
+			case "NewBuf":
+				order = false
+				bufs[st.B] = NewLinkBuffer(st.N * vlbUnit)
+				rdr[st.B] = bufs[st.B]
+			case "WriteBuffer":
+				order = false
+				mcache.LedgerUnprotect(1000 + st.M) // the donor's unread data now belongs to the receiving buffer
+				if err := b.WriteBuffer(bufs[st.M]); err != nil {
+					o.Bad = append(o.Bad, "result: WriteBuffer failed: "+err.Error())
+				}
+				delete(bufs, st.M)
+				delete(rdr, st.M)
 			case "Malloc":
 				p, _ := b.Malloc(n)
 				fill(p, wpos)
@@ -292,12 +309,20 @@ func vlbRun(bh *vlbBehaviour) (outs []vlbOut) {
 			}
 		}
 		outs = append(outs, o)
+		vlbMu.Lock()
+		vlbCur = append([]vlbOut(nil), outs...)
+		vlbMu.Unlock()
 		if o.Failed {
 			break
 		}
 	}
 	return outs
 }
+
+var (
+	vlbMu  sync.Mutex
+	vlbCur []vlbOut
+)
 
 func vlbPending(ps [][]byte) (n int) {
 	for _, p := range ps {
@@ -343,7 +368,24 @@ func TestVerifLinkBufferModel(t *testing.T) {
 	defer f.Close()
 	enc := json.NewEncoder(f)
 	for i := range wo.Behaviours {
-		outs := vlbRun(&wo.Behaviours[i])
-		enc.Encode(map[string]interface{}{"id": wo.Behaviours[i].ID, "steps": outs})
+		bh := &wo.Behaviours[i]
+		vlbMu.Lock()
+		vlbCur = nil
+		vlbMu.Unlock()
+		done := make(chan []vlbOut, 1)
+		go func() { done <- vlbRun(bh) }()
+		select {
+		case outs := <-done:
+			enc.Encode(map[string]interface{}{"id": bh.ID, "steps": outs})
+		case <-time.After(60 * time.Second):
+			// a call that does not return (a cycle in the chain): report it for this behaviour and give up on this process
+			vlbMu.Lock()
+			outs := append([]vlbOut(nil), vlbCur...)
+			vlbMu.Unlock()
+			outs = append(outs, vlbOut{Step: len(outs), Bufs: map[string]vlbBuf{}, Bad: []string{"hang: the call did not return within 60s"}, Failed: true})
+			enc.Encode(map[string]interface{}{"id": bh.ID, "steps": outs, "hang": true})
+			f.Sync()
+			os.Exit(3)
+		}
 	}
 }
